@@ -67,3 +67,37 @@ Theorem name_filename_roundtrip_shipped :
     basis_name_from_filename (transform_basis_name (i_display (snd kv))) = lower (i_display (snd kv)).
 Proof. exact shipped_names_roundtrip. Qed.
 Print Assumptions name_filename_roundtrip_shipped.
+
+(* ---- compact_elements / expand_elements at the level of the strings they really exchange (Proofs/ElementsDefs.v) ---- *)
+From Coq Require Import Sorting.Sorted.
+From BSE Require Import Proofs.ElementsDefs.
+From BSE Require Proofs.ElementsSpec.
+
+Theorem sort_dedupe_spec : sort_dedupe_spec_stmt.
+Proof. exact ElementsSpec.sort_dedupe_spec. Qed.
+Print Assumptions sort_dedupe_spec.
+
+Theorem runs_lose_nothing : runs_spec_stmt.
+Proof. exact ElementsSpec.runs_spec. Qed.
+Print Assumptions runs_lose_nothing.
+
+(* for every non-empty list of atomic numbers in 1..118: expand_elements(compact_elements(S)) = sorted set of S *)
+Theorem expand_compact : expand_compact_stmt.
+Proof. exact ElementsSpec.expand_compact. Qed.
+Print Assumptions expand_compact.
+
+Theorem expand_compact_empty : expand_compact_empty_stmt.
+Proof. exact ElementsSpec.expand_compact_empty. Qed.
+Print Assumptions expand_compact_empty.
+
+Theorem expand_rejects_separator_clash : expand_rejects_stmt.
+Proof. exact ElementsSpec.expand_rejects. Qed.
+Print Assumptions expand_rejects_separator_clash.
+
+Theorem expand_rejects_dangling_and_chained : expand_rejects_dangling_stmt.
+Proof. exact ElementsSpec.expand_rejects_dangling. Qed.
+Print Assumptions expand_rejects_dangling_and_chained.
+
+Example compact_demo : compact_elements [1; 2; 3; 6; 7; 8; 10; 3]%Z = inr (Some "H-Li,C-O,Ne") /\
+                       expand_elements (SelStr "H-Li,C-O,Ne") = inr [1; 2; 3; 6; 7; 8; 10]%Z.
+Proof. vm_compute. split; reflexivity. Qed.
